@@ -1,307 +1,334 @@
-"""C20 - string width measurement is consistent (the statically decidable clauses).
+"""C20 - string width measurement is consistent (the clauses decidable from rtflite's source).
 
-get_string_width's syntax tree is interpreted (model interpreter, sa/rules/c17.py) with a model font loader:
-ImageFont.truetype(path, size) records what it is asked to load and returns a font whose getlength(text) records the
-measured text and returns a generic pixel width W.  Observed:
+get_string_width is evaluated ONCE over symbolic arguments (SDT, sa/rules/c17.py): text, font, font_size and dpi are
+uninterpreted symbols, `unit` ranges over the finite domain the source declares (the Literal of its annotation) plus one
+value outside it; membership of the font in the source's finite font tables, the type test on the font, the Pillow
+compatibility flag and every other condition consulted are enumerated over all valuations.
 
-R20.1 for every unit the result is the exact conversion of W: px = W, in = W / dpi, mm = W / dpi * 25.4, for several dpi,
-      also when the same string is measured again at another dpi (stale memoised results);
-R20.2 the number<->name maps are inverse, cover 1..10, agree with the emitted font table, and a font given by number or by
-      name loads the same font file and gives the same result;
-R20.3 unsupported font numbers / names / units raise ValueError, whatever the text (also the empty string);
-R20.4 the font is loaded at the requested size itself (or, for Pillow < 10 only, its ceiling) and the measured string is
-      the text argument itself.
+R20.1 (A) for every unit the returned term is the monomial  px: W,  in: W/dpi,  mm: 25.4*W/dpi  of the measured pixel
+      width W = <font object>.getlength(text) (normal form comparison: lambda table, if-chain, match, factor table alike);
+R20.2 (A, exhaustive over finite tables) number<->name maps are inverse, cover exactly the declared font numbers, every name
+      reachable from a number has a font file, the emitted font table agrees;
+R20.3 (A) on every valuation in which the font is not a member of the consulted table / indexes a finite sequence out of
+      range or from the end (negative number), or the unit is outside the declared domain, the outcome is `raise
+      ValueError`; never a return value, never another exception type (a failed table look-up is a KeyError);
+R20.4 (A, dataflow) the size handed to the font loader is the font_size argument itself on every valuation in which the
+      Pillow (<10) compatibility flag is false, the measured text is the text argument itself, the font file is looked up
+      in a font table by the (validated) font;
+R20.5 (S, effects) a memo (module-level container written on the call path, or a memoised function) is keyed on every
+      argument its stored value depends on.
 Not decided here (properties of Pillow/FreeType on the bundled fonts): 0 for '', non-negativity, monotonicity under
 appending, 1% scaling, monospace advance.
 """
 from __future__ import annotations
 
-import math
+import ast
+from fractions import Fraction
 
-from ..pm import AnalysisError
+from ..absint import NOC
+from ..consteval import const_call
+from ..dtab import Sym, Unsupported
+from ..pm import AnalysisError, dotted, unparse, walk_no_nested
 from ..report import Ctx
-from .c17 import ExtRef, Interp, Unknown, Unsupported, _Model, is_artefact, interp_pm, cover, METHOD, run_valuations
+from .c05 import CallSym, Init, SubSym, path_of
+from .c17 import SDT, MonoSym, TableSym, cover_rows, declare_sdt, exc_mro, sdt_env, show, sparts
 
-UNITS = {"px": lambda w, dpi: w, "in": lambda w, dpi: w / dpi, "mm": lambda w, dpi: w / dpi * 25.4}
+OTHER = "\x00<any other unit>"
+MM = Fraction(127, 5)
 
 
-class _Res(_Model):
-    """importlib.resources.files(package): a traversable supporting `/` and str()"""
+def _literal_values(pm, module: str, ann: ast.AST, depth: int = 0):
+    """members of a Literal[...] annotation (following module-level aliases), or None"""
+    if depth > 4 or ann is None:
+        return None
+    if isinstance(ann, ast.Subscript) and dotted(ann.value).split(".")[-1] == "Literal":
+        elts = ann.slice.elts if isinstance(ann.slice, ast.Tuple) else [ann.slice]
+        if all(isinstance(e, ast.Constant) for e in elts):
+            return [e.value for e in elts]
+        return None
+    if isinstance(ann, ast.Name):
+        r = pm.resolve(module, ann.id)
+        if r and r[0] == "value":
+            return _literal_values(pm, r[1][0].name, r[1][1], depth + 1)
+    if isinstance(ann, ast.BinOp) and isinstance(ann.op, ast.BitOr):
+        l, r = _literal_values(pm, module, ann.left, depth + 1), _literal_values(pm, module, ann.right, depth + 1)
+        if l is not None and r is not None:
+            return l + r
+    return None
 
-    def __init__(self, s="<pkg:rtflite.fonts>"):
-        self.s = s
 
-    def __truediv__(self, o):
-        if not isinstance(o, str):
-            raise Unsupported(f"resource path joined with {o!r}")
-        return _Res(self.s + "/" + o)
-
-    def joinpath(self, *o):
-        r = self
-        for x in o:
-            r = r / x
-        return r
-
-    def __str__(self):
-        return self.s
-
-    def __fspath__(self):
-        return self.s
-
-    def __enter__(self):
-        return self
-
-    def __exit__(self, *a):
+def _derives_from_pil(pm, module: str, name: str, depth: int = 0) -> bool:
+    if depth > 6:
         return False
+    r = pm.resolve(module, name)
+    if r is None:
+        return False
+    if r[0] == "ext":
+        return str(r[1]).split(".")[0] in ("PIL", "pillow")
+    if r[0] == "value":
+        mi, expr = r[1]
+        return any(isinstance(x, ast.Name) and _derives_from_pil(pm, mi.name, x.id, depth + 1) for x in ast.walk(expr))
+    return False
 
 
-class _Font(_Model):
-    def __init__(self, world, path, size):
-        self.world, self.path, self.size = world, path, size
-
-    def getlength(self, text, *a, **k):
-        if not isinstance(text, str):
-            raise Unsupported(f"getlength of {text!r}")
-        self.world.measured.append((self.path, self.size, text))
-        return self.world.width(self.path, self.size, text)
-
-    def getbbox(self, text, *a, **k):
-        w = self.getlength(text)
-        return (0, 0, w, float(self.size))
-
-
-class World:
-    """model of Pillow's font loader and of importlib.resources"""
-
-    def __init__(self, pm):
-        self.it = Interp(pm)
-        self.loads, self.measured = [], []
-        w = self
-
-        class ImageFontModel(_Model):
-            def truetype(self, font=None, size=10, *a, **k):
-                if isinstance(size, (Unknown, ExtRef)) or isinstance(font, (Unknown, ExtRef)):
-                    raise Unsupported("font loaded with unknown path/size")
-                w.loads.append((str(font), size))
-                return _Font(w, str(font), size)
-            FreeTypeFont = _Font
-        self.it.externals.update({
-            "PIL.ImageFont": ImageFontModel(), "PIL.__version__": Unknown("PIL.__version__"),
-            "importlib.resources.files": lambda *a, **k: _Res(), "importlib.resources.as_file": lambda r: r,
-            "importlib_resources.files": lambda *a, **k: _Res(),
-        })
-
-    @staticmethod
-    def width(path, size, text):
-        # a generic positive width: depends on every argument, no special structure
-        h = sum((i + 3) * ord(c) for i, c in enumerate(text)) % 977
-        return 17.03125 + float(size) * (len(text) * 0.53125 + h / 1024.0) + (sum(map(ord, path)) % 89) / 64.0
-
-
-def _close(a, b) -> bool:
-    return isinstance(a, (int, float)) and not isinstance(a, bool) and math.isclose(a, b, rel_tol=1e-12, abs_tol=1e-12)
-
-
-def _exc(o) -> str:
-    return o[1].cls.mro_names()[0] if o[0] == "raise" and o[1].cls is not None else ""
+def _deps(v, params) -> set[str]:
+    return {p.path for p in sparts(v) if isinstance(p, Init) and p.path in params}
 
 
 def check(ctx: Ctx) -> None:
-    pm = interp_pm(ctx.pm)
+    pm = ctx.pm
     ctx.explain(
-        "get_string_width is interpreted with a model font loader (truetype records path and size, getlength records the text and "
-        "returns a generic width W). R20.1 results are W, W/dpi, 25.4·W/dpi for px/in/mm at several dpi, also on re-measuring at "
-        "another dpi; R20.2 the name->number and number->name maps are mutually inverse, cover 1..10, agree with the font table, "
-        "and number and name load the same font file with the same result; R20.3 unsupported font numbers, names and units raise "
-        "ValueError for any text; R20.4 the size handed to the loader is font_size itself (or its ceiling in the Pillow<10 branch) "
-        "and the measured string is the text argument. Clauses about the numeric result of FreeType's getlength are not decidable "
-        "from rtflite's source.")
-    ctx.assume("Pillow's FreeTypeFont.getlength is deterministic, additive enough and scale-linear for the bundled fonts (not analysed)")
+        "get_string_width is evaluated once over symbolic arguments; the decision table over all valuations of the consulted conditions (font type, membership of the font in the "
+        "source's finite font tables, range class of a font index, unit over its declared Literal domain + one foreign value, the Pillow<10 flag) is judged: R20.1 returned term per "
+        "unit equals the monomials W, W/dpi, 25.4*W/dpi; R20.3 every valuation with an unsupported font/unit raises ValueError; R20.4 size and text reach the loader/measurement as "
+        "the argument symbols themselves; R20.2 exhaustive agreement of the finite font tables; R20.5 memo keys cover the dependencies of the memoised value. Clauses about the "
+        "numeric result of FreeType's getlength are not decidable from rtflite's source.")
+    declare_sdt(ctx)
+    ctx.assume("Pillow's FreeTypeFont.getlength is deterministic, additive enough and scale-linear for the bundled fonts (not analysed); ImageFont.truetype / getlength are "
+               "uninterpreted function symbols of their arguments")
     for c in ("0 for the empty string", "non-negativity", "monotonicity under appending", "width scales with size within 1%", "monospace advance equality"):
         ctx.undecided(c + " (property of Pillow/FreeType on the bundled fonts)")
-    ctx.explain("Method: " + METHOD + ". The pixel width returned by the model font is a concrete generic number depending on font file, size and "
-                "text; the only unknown is the Pillow version (both branches enumerated). Decided for: all fonts of the number->name map by number "
-                "and by name, units px/in/mm at dpi 72/96/300/36/600 including re-measurement in one process, 6 unsupported fonts and 4 unsupported "
-                "units with empty and non-empty text, font sizes 12/9.5/10.4/7.25/23.9 (counts in coverage.interpretation).")
-    ctx.assume("ImageFont.truetype / FreeTypeFont.getlength and importlib.resources are models that record their arguments; no font file is opened")
-    ctx.undecided("dpi, sizes, strings and unsupported fonts/units other than the listed samples (the conversion clauses are decided on samples of a "
-                  "straight-line computation, not symbolically)")
-    stats = {"sequences": 0, "calls": 0, "forks": 0}
     fi = pm.func("get_string_width")
-    params = [a.arg for a in list(fi.node.args.posonlyargs) + list(fi.node.args.args)]
-    need = ["text", "font", "font_size", "unit", "dpi"]
-    if any(p not in params + [a.arg for a in fi.node.args.kwonlyargs] for p in need):
-        raise AnalysisError(f"get_string_width no longer takes the parameters {need}")
+    a = fi.node.args
+    plist = [x.arg for x in list(a.posonlyargs) + list(a.args) + list(a.kwonlyargs)]
+    want = ["text", "font", "font_size", "unit", "dpi"]
+    if plist[:5] != want:
+        if not all(p in plist for p in want):
+            ctx.gap("R20.1", f"get_string_width's parameters {plist} are not (text, font, font_size, unit, dpi)")
+            return
+    for d in fi.decorators:
+        if d.split(".")[-1] in ("lru_cache", "cache"):
+            ctx.instance("R20.5", fi.where(), f"get_string_width itself is memoised ({d}) on all its arguments")
+    # ---- unit domain from the declaration
+    ann = {x.arg: x.annotation for x in list(a.posonlyargs) + list(a.args) + list(a.kwonlyargs)}
+    units = _literal_values(pm, fi.module, ann.get("unit"))
+    if not units or not all(isinstance(u, str) for u in units):
+        ctx.gap("R20.1", f"the domain of `unit` is not a Literal of strings in the source ({unparse(ann.get('unit'))})")
+        return
+    ctx.instance("R20.1", fi.where(), f"declared unit domain {units} (+ one value outside it)")
+    dt = SDT(pm, watch={"truetype", "getlength"}, atoms={"unit": list(units) + [OTHER]})
+    try:
+        rows = dt.table_rows(fi.node.body, sdt_env(fi), fi)
+    except Unsupported as e:
+        ctx.gap("R20.1", f"get_string_width could not be evaluated symbolically: {e}")
+        return
+    cover_rows(ctx, "get_string_width", rows)
+    params = set(want)
 
-    def calls(seq):
-        """run a sequence of get_string_width calls in one fresh model world, under every valuation of unknown conditions
-        (the Pillow version) -> [(valuation, [outcome per call], world)]"""
-        def make():
-            w = World(pm)
-            f = w.it.func_val(fi)
+    def font_derived(v) -> bool:
+        return "font" in _deps(v, params)
 
-            def thunk():
-                res = []
-                for kw in seq:
-                    n0 = len(w.loads), len(w.measured)
-                    o = w.it.outcome(lambda: w.it.call(f, [], dict(kw)))
-                    res.append((o, w.loads[n0[0]:], w.measured[n0[1]:]))
-                return res
-            return w.it, thunk, w
-        out = []
-        rv = run_valuations(make)
-        stats["sequences"] += 1
-        stats["calls"] += len(seq) * len(rv)
-        stats["forks"] += len(rv) - 1
-        for v, o, w in rv:
-            if o[0] != "return":
-                raise Unsupported(f"interpretation of get_string_width ended with {o[1]!r}")
-            out.append((v, o[1], w))
-        return out
-
-    def gap_if_artefact(rule, o, label) -> bool:
-        if o[0] == "raise" and is_artefact(o[1]):
-            ctx.gap(rule, f"{label}: interpretation ended with {o[1]!r} (possibly an artefact of the font-loader model)")
-            return True
-        return False
-
-    # ---- the font tables (R20.2, also the sample fonts for the other rules)
-    it0 = Interp(pm)
-
-    def table(short):
-        try:
-            return it0.outcome(lambda: it0.call(it0.func_val(pm.func(short)), [], {}))
-        except Unsupported as e:
-            ctx.gap("R20.2", f"{short} could not be evaluated: {e}")
-            return None
-    f2 = pm.func("FontMapping.get_font_name_to_number_mapping")
-    got = {k: table(f"FontMapping.{k}") for k in ("get_font_name_to_number_mapping", "get_font_number_to_name_mapping", "get_font_paths", "get_font_table")}
-    tables_ok = all(o is not None and o[0] == "return" and isinstance(o[1], dict) for o in got.values())
-    n2n = num2 = paths = ftab = None
-    if not tables_ok:
-        bad = [k for k, o in got.items() if o is not None and not (o[0] == "return" and isinstance(o[1], dict))]
+    n_font_atoms = 0
+    expect = {"px": (Fraction(1), {"W": 1}), "in": (Fraction(1), {"W": 1, "dpi": -1}), "mm": (MM, {"W": 1, "dpi": -1})}
+    seen_units: dict[str, set] = {}
+    seen_size: set = set()
+    for row in rows:
+        val, out = row["val"], row["outcome"]
+        unit = val.get("unit")
+        desc = ", ".join(f"{k[:46]}={'<other>' if v == OTHER else v}" for k, v in val.items())
+        # ---------------- R20.3 validation
+        bad = []
+        if unit == OTHER:
+            bad.append("a unit outside " + str(units))
+        for key, v in val.items():
+            rec = dt.cmp.get(key)
+            if rec is None:
+                continue
+            if rec[0] == "member" and isinstance(rec[1], Sym) and font_derived(rec[1]) and not isinstance(rec[2], Sym):
+                n_font_atoms += 1
+                if v is False:
+                    bad.append(f"a font that is not in {dt.table_name(rec[2])}")
+            elif rec[0] == "index" and font_derived(rec[1]):
+                n_font_atoms += 1
+                if v == "neg":
+                    bad.append(f"a font number for which the index `{path_of(rec[1])}` is negative (it wraps around to a font counted from the end of the table)")
+                elif v == "out":
+                    bad.append(f"a font number for which the index `{path_of(rec[1])}` is beyond the table")
+        kind = out[0] if isinstance(out, tuple) else out
         if bad:
-            ctx.gap("R20.2", f"FontMapping.{bad[0]} does not evaluate to a mapping ({got[bad[0]]})")
-    else:
-        n2n, num2, paths, ftab = (got[k][1] for k in ("get_font_name_to_number_mapping", "get_font_number_to_name_mapping", "get_font_paths", "get_font_table"))
-        inv = {v: k for k, v in n2n.items()}
-        ctx.instance("R20.2", f2.where(), f"name->number {len(n2n)} entries, number->name {len(num2)} entries, paths {len(paths)} entries")
-        if inv != dict(num2) or len(inv) != len(n2n):
-            ctx.violation("R20.2", "FontMapping", "maps not inverse", f2.where(), "number->name is not the inverse of name->number")
-        if sorted(num2) != list(range(1, 11)):
-            ctx.violation("R20.2", "FontMapping", f"numbers {sorted(num2)}", f2.where(), "font numbers are not exactly 1..10")
-        for num, name in sorted(num2.items()):
-            try:
-                ok = name in paths and ftab["name"][num - 1] == name and ftab["type"][num - 1] == num
-            except (KeyError, IndexError, TypeError):
-                ok = False
-            ctx.instance("R20.2", f2.where(), f"font {num} <-> {name!r} -> {paths.get(name)}; font table row agrees: {ok}")
-            if not ok:
-                ctx.violation("R20.2", "FontMapping", f"font {num} {name}", f2.where(), f"font {num} ({name}) has no font file or disagrees with the emitted font table")
-    fonts = sorted(num2.items()) if tables_ok else [(1, "Times New Roman"), (4, "Arial"), (9, "Courier New")]
-    base = {"text": "Hello, World", "font": fonts[0][1], "font_size": 12, "unit": "px", "dpi": 72.0}
-
-    # ---- R20.2 number and name give the same font file and the same result
-    for num, name in fonts:
-        for v, res, w in calls([{**base, "font": num, "unit": "in"}, {**base, "font": name, "unit": "in"}]):
-            (o1, _, m1), (o2, _, m2) = res
-            if gap_if_artefact("R20.2", o1, f"font {num}") or gap_if_artefact("R20.2", o2, f"font {name!r}"):
-                continue
-            l1, l2 = [(p, sz) for p, sz, _ in m1], [(p, sz) for p, sz, _ in m2]       # the font files the text was measured with
-            # a call that measured nothing itself was served from a memo filled by the other one: compare the results only
-            same = o1[0] == o2[0] == "return" and (not l1 or not l2 or [p for p, _ in l1] == [p for p, _ in l2]) and _close(o1[1], o2[1])
-            want_file = paths.get(name) if paths else None
-            used = l2 or l1
-            file_ok = want_file is None or not used or all(p.endswith("/" + want_file) or p == want_file for p, _ in used)
-            ctx.instance("R20.2", fi.where(), f"font {num} / {name!r}: measured with {sorted({p for p, _ in l1})} / {sorted({p for p, _ in l2})}, same result: {same}")
-            if o1[0] == "raise" or o2[0] == "raise":
-                ctx.violation("R20.2", fi.short, f"font {num}/{name} rejected", fi.where(),
-                              f"supported font {num} / {name!r} is rejected: {o1[1] if o1[0] == 'raise' else o2[1]!r}")
-            elif not same:
-                ctx.violation("R20.2", fi.short, f"font {num} differs from {name}", fi.where(),
-                              f"font number {num} is measured with {[p for p, _ in l1]} and returns {o1[1]!r}, font name {name!r} with {[p for p, _ in l2]} and returns {o2[1]!r}")
-            elif not file_ok:
-                ctx.violation("R20.2", fi.short, f"font {name} file", fi.where(), f"font {name!r} is measured with {[p for p, _ in used]}, the font map says {want_file!r}")
-    # ---- R20.1 unit conversions, several dpi, re-measured at another dpi in the same process
-    dpis = (72.0, 96.0, 300.0, 36.0)
-    for unit, conv in UNITS.items():
-        seq = [{**base, "unit": unit, "dpi": d} for d in dpis] + [{**base, "unit": unit, "dpi": 600.0, "font": fonts[0][0]}]
-        for v, res, w in calls(seq):
-            for kw, (o, loads, measured) in zip(seq, res):
-                label = f"unit {unit!r} at dpi {kw['dpi']}"
-                if gap_if_artefact("R20.1", o, label):
-                    continue
-                if o[0] == "raise":
-                    ctx.violation("R20.1", fi.short, f"unit {unit} rejected", fi.where(), f"{label}: supported unit raises {o[1]!r}")
-                    continue
-                # the pixel width measured for this call (or, if the call measured nothing itself, by the first call:
-                # same text, font and size throughout the sequence)
-                ref = (measured or w.measured)[:1]
-                if not ref:
-                    ctx.gap("R20.1", f"{label}: nothing was measured through a font loaded by ImageFont.truetype")
-                    continue
-                W = World.width(*ref[0])
-                exp = conv(W, kw["dpi"])
-                ok = _close(o[1], exp)
-                ctx.instance("R20.1", fi.where(), f"{label}: returns {o[1]!r}, exact conversion of the measured {W!r} px is {exp!r}: {ok}")
+            what = "; ".join(bad)
+            if kind == "raise":
+                et = out[1]
+                ok = "ValueError" in exc_mro(pm, et)
+                ctx.instance("R20.3", fi.where(out[3]) if out[3] is not None else fi.where(), f"[{desc}] -> raise {et}")
                 if not ok:
-                    ctx.violation("R20.1", fi.short, f"unit {unit}: not the exact conversion", fi.where(),
-                                  f"{label}: get_string_width returns {o[1]!r} but the measured pixel width {W!r} converts to {exp!r}; "
-                                  "results in different units / at different dpi are no longer exact conversions of one another")
-    # ---- R20.3 unsupported fonts / units raise ValueError, whatever the text
-    bad_fonts = [0, 11, -1, 99, "No Such Font", ""]
-    bad_units = ["cm", "pt", "", "IN"]
-    for text in ("Hello", ""):
-        for label, kw in [(f"font number {f}" if isinstance(f, int) else f"font name {f!r}", {"font": f}) for f in bad_fonts] + \
-                         [(f"unit {u!r}", {"unit": u}) for u in bad_units]:
-            kind = label.split(" ")[0] + " " + label.split(" ")[1] if label.startswith("font") else "unit"
-            for v, res, w in calls([{**base, "text": text, **kw}]):
-                o = res[0][0]
-                if gap_if_artefact("R20.3", o, label):
-                    continue
-                names = o[1].cls.mro_names() if o[0] == "raise" else []
-                ctx.instance("R20.3", fi.where(), f"unsupported {label}, text {text!r}: {o[0]} {names[:1] if names else repr(o[1])}")
-                if o[0] != "raise":
-                    ctx.violation("R20.3", fi.short, f"unsupported {kind} accepted" + (" for empty text" if text == "" else ""), fi.where(),
-                                  f"get_string_width({text!r}, {', '.join(f'{k}={x!r}' for k, x in kw.items())}) returns {o[1]!r} instead of raising ValueError")
-                elif "ValueError" not in names:
-                    ctx.violation("R20.3", fi.short, f"unsupported {kind} raises {names[0]}", fi.where(),
-                                  f"unsupported {label} raises {names[0]} instead of ValueError")
-    # ---- R20.4 requested size and text reach the loader unmodified
-    for size in (12, 9.5, 10.4, 7.25, 23.9):
-        text = "  width of this text  "
-        runs = calls([{**base, "text": text, "font_size": size}, {**base, "text": text.strip() + "!", "font_size": size}])
-        exact = []
-        for v, res, w in runs:
-            o, loads, measured = res[0]
-            if gap_if_artefact("R20.4", o, f"font_size {size}"):
-                continue
-            if o[0] == "raise":
-                ctx.violation("R20.4", fi.short, f"size {size} rejected", fi.where(), f"font_size {size} raises {o[1]!r}")
-                continue
-            sizes = [s for _, s, _ in measured]
-            measured = [t for _, _, t in measured]
-            ctx.instance("R20.4", fi.where(), f"font_size {size}: measured at size {sizes}, text {measured} (unknown conditions {v})")
-            if not sizes:
-                ctx.gap("R20.4", "nothing was measured through a font loaded by ImageFont.truetype")
-                continue
-            exact.append(all(s == size and (isinstance(s, float) or float(size).is_integer()) for s in sizes))
-            bad = [s for s in sizes if not (s == size or (s == math.ceil(size) and isinstance(s, int)))]
-            if bad:
-                ctx.violation("R20.4", fi.short, "size " + ("rounded" if any(float(b).is_integer() for b in bad) else "snapped"), fi.where(),
-                              f"for font_size {size} the font is loaded at {bad[0]!r}, not at the requested size (width no longer scales with size)")
-            if measured != [text]:
-                ctx.violation("R20.4", fi.short, "measured text", fi.where(), f"the measured string is {measured!r}, not the text argument itself ({text!r})")
-            o2, loads2, measured2 = res[1]
-            if o2[0] == "return" and [t for _, _, t in measured2] != [text.strip() + "!"]:
-                ctx.violation("R20.4", fi.short, "measured text", fi.where(), f"a second call measures {measured2!r} instead of its own text argument")
-        if exact and not any(exact):
-            ctx.violation("R20.4", fi.short, "size never exact", fi.where(), f"for font_size {size} no Pillow version gets the font at exactly the requested size")
-    cover(ctx, call_sequences=stats["sequences"], interpreted_calls=stats["calls"], forks_on_unknown_conditions=stats["forks"],
-          fonts=[list(x) for x in fonts], dpi=[72.0, 96.0, 300.0, 36.0, 600.0], font_sizes=[12, 9.5, 10.4, 7.25, 23.9],
-          unsupported_fonts=[repr(x) for x in bad_fonts], unsupported_units=bad_units,
-          fork_enumeration="all valuations of the unknown conditions consulted (Pillow version), at most 48 runs per sequence")
+                    implicit = out[3] is not None and not isinstance(out[3], ast.Raise)
+                    ctx.violation("R20.3", fi.short, f"{bad[0].split(' (')[0][:60]} raises {et}", fi.where(out[3]) if out[3] is not None else fi.where(),
+                                  f"for {what} get_string_width raises {et}" + (f" (failed look-up `{unparse(out[3])[:50]}`)" if implicit else "") + " instead of ValueError")
+            else:
+                rv = out[1] if isinstance(out, tuple) else None
+                ctx.instance("R20.3", fi.where(), f"[{desc}] -> {kind} {show(rv)[:60]}")
+                ctx.violation("R20.3", fi.short, f"{bad[0].split(' (')[0][:60]} accepted", fi.where(),
+                              f"for {what} get_string_width returns `{show(rv)[:80]}` instead of raising ValueError [{desc[:160]}]")
+            continue
+        # ---------------- R20.4 loader arguments (valuations with supported font and unit)
+        tts = [e for e in row["effects"] if e[0] == "call" and e[1] == "truetype"]
+        gls = [e for e in row["effects"] if e[0] == "call" and e[1] == "getlength"]
+        pil = [k for k, v in val.items() if v is True and (dt.cmp.get(k) or ("",))[0] == "truth" and isinstance(dt.cmp[k][1], Sym)
+               and _derives_from_pil(pm, fi.module, dt.cmp[k][1].path.split(".")[0].split("[")[0])]
+        for e in tts:
+            args, kw = e[3], e[4]
+            size = kw.get("size", args[1] if len(args) > 1 else None)
+            fpath = kw.get("font", args[0] if args else None)
+            ok = isinstance(size, Init) and size.path == "font_size"
+            seen_size.add(show(size))
+            ctx.instance("R20.4", fi.where(e[5]), f"[{desc[:120]}] font loaded at size `{show(size)[:70]}`" + (" (Pillow<10 compatibility branch)" if pil else ""))
+            if size is None:
+                ctx.gap("R20.4", "the size argument of the font loader was not re-identified")
+            elif not ok and not pil:
+                ctx.violation("R20.4", fi.short, "size " + show(size)[:80], fi.where(e[5]),
+                              f"the font is loaded at `{show(size)[:100]}`, not at the requested font_size itself: the width no longer scales with the size [{desc[:120]}]")
+            elif not ok and pil and "font_size" not in _deps(size, params):
+                ctx.violation("R20.4", fi.short, "size " + show(size)[:80], fi.where(e[5]), f"the font size `{show(size)[:80]}` does not derive from font_size")
+            tabs = [p for p in sparts(fpath) if isinstance(p, SubSym) and isinstance(p.base, TableSym)]
+            if fpath is not None and not any(font_derived(t.key) or font_derived(t) for t in tabs) and not font_derived(fpath):
+                ctx.violation("R20.4", fi.short, "font file " + show(fpath)[:60], fi.where(e[5]), f"the font file `{show(fpath)[:100]}` does not depend on the font argument")
+        for e in gls:
+            args = e[3]
+            ok = len(args) == 1 and isinstance(args[0], Init) and args[0].path == "text"
+            ctx.instance("R20.4", fi.where(e[5]), f"measured text `{show(args[0])[:60] if args else '?'}`")
+            if not ok:
+                ctx.violation("R20.4", fi.short, "measured text " + (show(args[0])[:60] if args else "?"), fi.where(e[5]),
+                              f"the measured string is `{show(args[0])[:80] if args else '?'}`, not the text argument itself")
+            recv = e[2]
+            if not (isinstance(recv, CallSym) and recv.meth == "truetype"):
+                if not any(isinstance(p, CallSym) and p.meth == "truetype" for p in sparts(recv)):
+                    ctx.gap("R20.4", f"the object measured (`{show(recv)[:60]}`) is not recognisably the loaded font")
+        # ---------------- R20.1 returned term
+        if kind == "raise":
+            ctx.instance("R20.3", fi.where(), f"[{desc}] -> raise {out[1]} on supported arguments")
+            if not (getattr(out[3], "lineno", None) and isinstance(out[3], ast.Raise)):
+                ctx.violation("R20.3", fi.short, f"supported arguments raise {out[1]}", fi.where(out[3]) if out[3] is not None else fi.where(),
+                              f"a failed look-up raises {out[1]} although font and unit are supported [{desc[:140]}]")
+            continue
+        if kind != "return":
+            ctx.violation("R20.1", fi.short, "no return value", fi.where(), f"get_string_width ends without returning a width [{desc[:140]}]")
+            continue
+        rv = dt.concrete(out[1])
+        W = gls[-1][6] if gls else None
+        font_checked = any((dt.cmp.get(k) or ("",))[0] in ("member", "index") and font_derived(dt.cmp[k][1]) and not isinstance(dt.cmp[k][2], Sym) for k in val)
+        unvalidated = ([] if font_checked else ["font"]) + ([] if "unit" in val else ["unit"])
+        if unvalidated:
+            ctx.instance("R20.3", fi.where(), f"[{desc}] -> returns `{show(rv)[:50]}` without consulting the validity of {unvalidated}")
+            ctx.violation("R20.3", fi.short, "return before validation of " + ",".join(unvalidated), fi.where(),
+                          f"on the path [{desc[:140]}] get_string_width returns `{show(rv)[:60]}` without having tested the {' and the '.join(unvalidated)} argument: "
+                          f"an unsupported {unvalidated[0]} returns a value instead of raising ValueError")
+            continue
+        if isinstance(rv, (int, float)) and rv == 0 and any(v is False and (dt.cmp.get(k) or ("",))[0] == "truth" and path_of(dt.cmp[k][1]) == "text" for k, v in val.items()):
+            ctx.instance("R20.1", fi.where(), f"[{desc[:120]}] empty text -> 0")
+            continue
+        m = dt.mono_of(rv) if not isinstance(rv, (str, list, tuple, dict, type(None))) else None
+        if m is None or W is None:
+            ctx.gap("R20.1", f"the value returned for unit {unit!r} (`{show(rv)[:80]}`) is not a monomial of the measured width")
+            continue
+        coef, fac = m
+        if any(p.startswith("?") or "?" in p.split("(")[0] for p in fac):
+            ctx.gap("R20.1", f"the value returned for unit {unit!r} (`{show(rv)[:80]}`) contains a term the evaluator could not interpret")
+            continue
+        norm = {}
+        for p, (e, t) in fac.items():
+            if p == W.path:
+                norm["W"] = e
+            elif isinstance(t, Init) and t.path == "dpi":
+                norm["dpi"] = e
+            else:
+                norm[p] = e
+        seen_units.setdefault(unit, set()).add((coef, tuple(sorted(norm.items()))))
+        ec, ef = expect.get(unit, (None, None))
+        ok = ec is not None and coef == ec and norm == ef
+        ctx.instance("R20.1", fi.where(), f"unit {unit!r}: returns {coef} x " + " x ".join(f"{k}^{e}" for k, e in sorted(norm.items())) + f" {'==' if ok else '!='} expected [{desc[:100]}]")
+        if ec is None:
+            ctx.violation("R20.1", fi.short, f"extra unit {unit}", fi.where(), f"undocumented unit {unit!r} is accepted")
+        elif not ok:
+            ctx.violation("R20.1", fi.short, f"unit {unit}: {coef} {sorted(norm.items())}", fi.where(),
+                          f"for unit {unit!r} the result is {float(coef):g} x " + " x ".join(f"{k}^{e}" for k, e in sorted(norm.items())) +
+                          f", expected {float(ec):g} x " + " x ".join(f"{k}^{e}" for k, e in sorted(ef.items())) + ": results in different units are no longer exact conversions of one another")
+    if n_font_atoms == 0 and not ctx.findings:
+        ctx.gap("R20.3", "no membership / index test of the font argument against a finite table was consulted: the font validation was not re-identified")
+    for u in units:
+        if u not in seen_units and not ctx.findings:
+            ctx.gap("R20.1", f"no valuation returns a value for unit {u!r}")
+    # ---------------- R20.5 memo keys
+    by_key: dict[str, dict] = {}
+    for row in rows:
+        for e in row["effects"]:
+            if e[0] == "setitem" and isinstance(e[1], dict):
+                k, v = e[2], e[3]
+                dk, dv = _deps(k, params), _deps(v, params)
+                kparts = list(k) if isinstance(k, tuple) else [k]
+                has_unit = any((isinstance(x, str) and x == row["val"].get("unit")) or (isinstance(x, Sym) and x.path == "unit") for x in kparts)
+                by_key.setdefault(path_of(k) + (f" | unit={row['val'].get('unit')}" if has_unit else ""), {}).setdefault(show(v), set()).add(row["val"].get("unit"))
+                miss = sorted(dv - dk)
+                ctx.instance("R20.5", fi.where(e[4]), f"memo store key `{path_of(k)[:80]}` (depends on {sorted(dk)}{' + unit' if has_unit else ''}) value depends on {sorted(dv)}")
+                if miss:
+                    ctx.violation("R20.5", fi.short, "memo key lacks " + ",".join(miss), fi.where(e[4]),
+                                  f"a memoised value that depends on {sorted(dv)} is stored under the key `{path_of(k)[:80]}` which does not contain {miss}: a later call with "
+                                  f"another {miss[0]} returns the stale value")
+    for k, vals in by_key.items():
+        if len(vals) > 1:
+            ctx.violation("R20.5", fi.short, "memo key lacks unit", fi.where(), f"the memo key `{k[:80]}` is the same for different units but the stored value differs ({sorted(vals)[:2]})")
+    from ..callgraph import CallGraph
+    from ..effects import memo_is_pure
+    cg = CallGraph(pm)
+    for short in sorted(cg.reachable([fi.short])):
+        f2 = pm.funcs.get(short)
+        if f2 is None or f2.module != fi.module and not f2.module.endswith("fonts_mapping"):
+            continue
+        memo = [d for d in f2.decorators if d.split(".")[-1] in ("lru_cache", "cache")]
+        if memo:
+            pure, why = memo_is_pure(pm, f2)
+            ctx.instance("R20.5", f2.where(), f"{short} is memoised ({memo[0]}) on its arguments: result depends only on them: {pure} ({why})")
+            if not pure:
+                ctx.violation("R20.5", short, "memoised " + memo[0], f2.where(), f"{short} is memoised but {why}")
+    # ---------------- R20.2 finite tables
+    r20_2(ctx, dt, fi)
     ctx.floor("R20.1", 4)
-    ctx.floor("R20.2", 13)
     ctx.floor("R20.3", 3)
-    ctx.floor("R20.4", 3)
+    ctx.floor("R20.4", 2)
+
+
+def r20_2(ctx: Ctx, dt: SDT, fi) -> None:
+    pm = ctx.pm
+    f2 = pm.func("FontMapping.get_font_name_to_number_mapping")
+    try:
+        n2n = const_call(pm, "FontMapping.get_font_name_to_number_mapping")
+        num2 = const_call(pm, "FontMapping.get_font_number_to_name_mapping")
+        paths = const_call(pm, "FontMapping.get_font_paths")
+        table = const_call(pm, "FontMapping.get_font_table")
+    except AnalysisError as e:
+        ctx.gap("R20.2", f"font tables not found: {e}")
+        return
+    if any(x is NOC or not isinstance(x, dict) for x in (n2n, num2, paths, table)):
+        ctx.gap("R20.2", "the font maps of FontMapping are not constant tables of the source")
+        return
+    numbers = _literal_values(pm, f2.module, ast.Name(id="FontNumber", ctx=ast.Load())) or list(range(1, 11))
+    inv = {v: k for k, v in n2n.items()}
+    ctx.instance("R20.2", f2.where(), f"name->number {len(n2n)} entries, number->name {len(num2)} entries, paths {len(paths)} entries, declared numbers {numbers}")
+    if inv != num2 or len(inv) != len(n2n):
+        ctx.violation("R20.2", "FontMapping", "maps not inverse", f2.where(), "number->name is not the inverse of name->number: a font given by number and by name gives different results")
+    if sorted(num2) != sorted(numbers):
+        ctx.violation("R20.2", "FontMapping", f"numbers {sorted(num2)}", f2.where(), f"font numbers are not exactly the declared {numbers}")
+    for num, name in sorted(num2.items()):
+        row_ok = isinstance(table.get("name"), list) and isinstance(table.get("type"), list) and 0 < num <= len(table["name"]) and table["name"][num - 1] == name and table["type"][num - 1] == num
+        ok = name in paths and row_ok
+        ctx.instance("R20.2", f2.where(), f"font {num} <-> {name!r} -> {paths.get(name)}; font table row agrees: {row_ok}")
+        if not ok:
+            ctx.violation("R20.2", "FontMapping", f"font {num} {name}", f2.where(), f"font {num} ({name}) has no font file or disagrees with the emitted font table")
+    # the tables get_string_width actually consults
+    used = {}
+    for key, rec in dt.cmp.items():
+        if rec[0] == "member" and isinstance(rec[2], (dict, list, tuple)) and any(isinstance(p, Init) and p.path == "font" for p in sparts(rec[1])):
+            used[dt.table_name(rec[2])] = rec[2]
+    for tn, tab in sorted(used.items()):
+        keys = list(tab)
+        if keys and all(isinstance(k, int) for k in keys):
+            same = isinstance(tab, dict) and dict(tab) == num2
+            ctx.instance("R20.2", fi.where(), f"get_string_width tests font numbers against {tn}: equals FontMapping's number->name map: {same}")
+            if not same and isinstance(tab, dict):
+                ctx.violation("R20.2", fi.short, f"number table {tn}", fi.where(), f"get_string_width resolves font numbers through {tn}, which differs from FontMapping's number->name map")
+        elif keys and all(isinstance(k, str) for k in keys):
+            missing = sorted(set(num2.values()) - set(keys))
+            ctx.instance("R20.2", fi.where(), f"get_string_width tests font names against {tn}: every numbered font has an entry: {not missing}")
+            if missing:
+                ctx.violation("R20.2", fi.short, f"name table lacks {missing[:3]}", fi.where(), f"fonts {missing} can be selected by number but have no entry in {tn}")
+    ctx.floor("R20.2", 11)
